@@ -6,7 +6,9 @@ package c14
 
 import (
 	"fmt"
+	"os"
 	"sort"
+	"strconv"
 	"strings"
 
 	"github.com/NVIDIA/KAI-scheduler/pkg/scheduler/api/node_info"
@@ -423,13 +425,22 @@ func one(r *u.Rng, sessionLike bool) (term, label string, kinds map[string]int, 
 	} else {
 		g.arbitrary(nops)
 	}
-	term = fmt.Sprintf("(mkCase %s %s %s)", init, u.Bool(sessionLike), u.List(g.steps))
+	term = fmt.Sprintf("(CNode (mkCase %s %s %s))", init, u.Bool(sessionLike), u.List(g.steps))
 	kind := "arbitrary"
 	if sessionLike {
 		kind = "session-like"
 	}
 	label = fmt.Sprintf("%s node{gpus=%d gpumem=%d pods=%d} ops=[%s]", kind, ns.Gpus, g.ni.MemoryOfEveryGpuOnNode, ns.Pods, strings.Join(g.desc, " "))
 	return term, label, g.kinds, len(g.steps)
+}
+
+func sessionWorkers() int {
+	if v := os.Getenv("C14_WORKERS"); v != "" {
+		if k, err := strconv.Atoi(v); err == nil && k > 0 {
+			return k
+		}
+	}
+	return 8
 }
 
 func Run(dir string, seed uint64, n int) error {
@@ -459,6 +470,37 @@ func Run(dir string, seed uint64, n int) error {
 		}
 		out.Sample(label)
 	}
-	out.Stats["rule"] = "operation programs on one real NodeInfo (3-8 pods of kinds cpu/whole/fraction/multi-fraction/gpu-memory/MIG/best-effort/reservation; 0-4 GPUs; half of the nodes carry a device-memory label of 100 / 200 / 16384 / 24564 / 40960 / 81920 MiB and gpu-memory requests then sit around the device size and the 1/100 rounding steps of the portion). Stream 'session-like' replays what snapshot construction and statement operations do to a node (placement decided by the real IsTaskAllocatable / GetNodePreferableGpuForSharing, evict, undo in LIFO order); stream 'arbitrary' applies add/remove/update/consolidate with any active status and any groups, including error paths. Non-trivial = at least 3 operations of at least 2 kinds; distinct by the full operation list."
+	// ---- workload clause: PodGroupInfo / PodSet counters (jobs.go) ----
+	sampled := map[string]bool{}
+	var jobSamples []any
+	addJob := func(stream string) func(term, label string, kinds map[string]int, ns int) {
+		return func(term, label string, kinds map[string]int, ns int) {
+			out.Add(term, label)
+			out.Count("stream:" + stream)
+			for k, v := range kinds {
+				out.CountN("job:"+k, v)
+			}
+			out.CountN("job-observations", ns)
+			if ns >= 3 {
+				out.NonTrivial(label)
+			}
+			if !sampled[stream] && (stream != "job-ops" || strings.HasPrefix(label, "job-ops job")) {
+				sampled[stream] = true
+				jobSamples = append(jobSamples, label)
+			}
+		}
+	}
+	pairCorpus(addJob("job-ops"))
+	for i := 0; i < n/3; i++ {
+		addJob("job-ops")(randomJobOps(root.Fork(uint64(7000000 + i))))
+	}
+	for _, res := range runSessions(sessionJobs(root, n/40, n/20), sessionWorkers()) {
+		addJob(res.kind)(res.term, res.label, res.kinds, res.nsteps)
+	}
+	if len(out.Samples) > 2 {
+		out.Samples = out.Samples[:2]
+	}
+	out.Samples = append(out.Samples, jobSamples...)
+	out.Stats["rule"] = "operation programs on one real NodeInfo (3-8 pods of kinds cpu/whole/fraction/multi-fraction/gpu-memory/MIG/best-effort/reservation; 0-4 GPUs; half of the nodes carry a device-memory label of 100 / 200 / 16384 / 24564 / 40960 / 81920 MiB and gpu-memory requests then sit around the device size and the 1/100 rounding steps of the portion). Stream 'session-like' replays what snapshot construction and statement operations do to a node (placement decided by the real IsTaskAllocatable / GetNodePreferableGpuForSharing, evict, undo in LIFO order); stream 'arbitrary' applies add/remove/update/consolidate with any active status and any groups, including error paths. Non-trivial = at least 3 operations of at least 2 kinds; distinct by the full operation list. WORKLOAD CLAUSE (streams job-ops / statement / cycle): real PodGroupInfo objects observed after every operation - the pods held with their statuses next to Allocated (structured and vector), GetActiveAllocatedTasksCount, PodStatusIndex member by member, GetNumPendingTasks / GetNumGatedTasks / GetNumActiveUsedTasks / GetNumAllocatedTasks / GetNumAliveTasks / GetActivelyRunningTasksCount, IsGangSatisfied / IsReadyForScheduling / IsStale / ShouldPipelineJob / IsElastic and every PodSet's minAvailable, pod count, GetNumActiveAllocatedTasks / GetNumActiveUsedTasks / GetNumAliveTasks / GetNumPendingTasks / GetNumGatedTasks and predicates. job-ops: n/3 programs of 6-24 AddTaskInfo / UpdateTaskStatus calls on one PodGroupInfo (2-6 pods: cpu-only, whole GPU, fraction incl. 0.2 / 0.3 / 0.33, multi-fraction, gpu-memory, MIG, extended resource, best effort; one default pod set or 2-3 named pod sets flat or under sub-group sets; a pod in twelve names a sub group the job does not have; updates of pods the job does not hold) plus a corpus run every time: one pod through ALL 144 ordered status pairs there and back, the pending gang of seeded/C14-4 nominated and un-nominated, and three histories the scheduler does not issue (stale copy, stale copy without an index for its status, pod added twice: correspondence only). statement: n/40 random programs of 6-28 commands on real Statements of sessions assembled by cycle.Build from generated clusters (common.AllocateJob with its own checkpoints / rollbacks, placement of one pod through Statement.Allocate / Pipeline / gpu_sharing.AllocateFractionalGPUTaskToNode, Evict, Unevict, Checkpoint, Rollback, Discard, Commit, ConvertAllAllocatedToPipelined) plus the seeded change's scenarios (pipeline then rollback / discard, AllocateJob of a gang that does not fit). cycle: n/20 generated clusters through the real actions (allocate and a random subset of consolidation, reclaim, preempt, stalegangeviction) plus the seeded change's allocate scenario. In both session streams an event handler registered after the plugins observes the affected job inside EVERY allocate / deallocate event (every Statement primitive and every undo of it, including the scenario solvers' simulations), and all jobs are observed after every command / action. Non-trivial (workload) = at least 3 observations."
 	return out.Flush()
 }
